@@ -1,7 +1,22 @@
 import Rare.Base.Proto
+import Rare.Model.C01
 namespace Rare.Drv.C01
+open Rare Rare.C01 Rare.Proto Rare.Pipeline
 
+def renderLine (l : Line) : String := s!"{l.src}:{l.num}:{Hex.enc l.text}:{Hex.enc (harnessGroup1 l.text)}"
+
+/-- `pipe <inputs hexlist>`: the reference outcome (independent of batch/worker/reader/buffer settings,
+    chunking and schedule – that independence is the theorem). -/
 def handle : List String → String
+  | "pipe" :: ins :: _ =>
+    match decHexList ins with
+    | some inputs =>
+      let ls := allLines inputs
+      let t := seqTotals harnessCls ls
+      let ms := seqMatches harnessCls ls
+      let body := if ms.isEmpty then "." else ",".intercalate (ms.map renderLine)
+      s!"ok read={t.read} matched={t.matched} ignored={t.ignored} inorder=1 matches={body}"
+    | none => "bad-args"
   | _ => "bad-op"
 
 end Rare.Drv.C01
